@@ -353,7 +353,22 @@ def gen_case(rng):
     r = rng.random()
     cache = gen_cache(rng)
     tag = 'raw'
-    if r < 0.07:
+    budget = None
+    if r < 0.02:
+        # straight-line calls only: the witness spends k calls, the lock m
+        # more; "the callstack_limit is enforced across the total execution
+        # via a cumulative callstack_count" (run_auth_scripts docstring), so
+        # the list authorizes exactly when k + m <= limit
+        tag = 'budget'
+        L_ = rng.choice((1, 2, 3, 5, 8))
+        k_, m_ = rng.randrange(0, L_ + 2), rng.randrange(0, L_ + 2)
+        scripts = [isa.DEF(9, b'') + isa.CALL(9) * k_,
+                   isa.DEF(8, b'') + isa.CALL(8) * m_ + isa.op('TRUE')]
+        if rng.random() < 0.3:
+            scripts.insert(1, isa.op('TRUE') + isa.op('POP0'))
+        budget = (k_, m_, L_)
+        cache = {}
+    elif r < 0.07:
         tag = 'cutoff'
         scripts, control = auth.cutoff_list(rng)
     elif r < 0.25:
@@ -384,6 +399,9 @@ def gen_case(rng):
     }
     if tag == 'cutoff':
         case['control'] = control
+    if budget is not None:
+        case.update(max_items=1024, max_item_size=1024, limit=budget[2],
+                    budget=list(budget))
     return case
 
 
@@ -429,6 +447,16 @@ def judge_traced(ctx, case, verdict, exc):
     ctx.evaluated()
     ctx.tab('tag', case['tag'].split(':')[0])
     ctx.tab('verdict', f'real={verdict} oracle={want}')
+    if case.get('budget'):
+        k_, m_, L_ = case['budget']
+        ctx.count('call_budget_lists')
+        if (verdict is True) != (k_ + m_ <= L_):
+            ctx.violation('call-budget-not-cumulative', f'{k_} calls in the '
+                          f'witness and {m_} in the lock under call-stack '
+                          f'limit {L_}: verdict {verdict!r} (the budget is '
+                          'documented as cumulative over the whole list)',
+                          case, k_ + m_ <= L_, repr(verdict))
+            return
     if def_problems:
         if 'own RETURN' in def_problems[0]:
             ctx.violation('runs-past-own-return', 'a script went on after its '
